@@ -12,7 +12,7 @@ FSs   == { FsSpace, FsChar(COMMA), FsChar(COLON), FsChar(TAB), FsChar(BAR),
            FsRe(Cat(Lit(COMMA), Star(Lit(SP)))), FsRe(Alt(Lit(c_a), Cat(Lit(c_a), Lit(c_b)))),
            FsRe(Star(Lit(c_b))), FsRe(Plus(Cls({COMMA, COLON}))) }
 OFSs  == { <<SP>>, <<MINUS>>, <<>>, <<COMMA, SP>> }
-Idx   == { 0 - 2, 0 - 1, 0, 1, 2, 3, 5, MaxField + 1 }
+Idx   == { 0 - 4, 0 - 2, 0 - 1, 0, 1, 2, 3, 5, MaxField + 1 }
 NFs   == { 0 - 1, 0, 1, 2, 4, MaxField + 1 }
 
 Menu ==
@@ -25,7 +25,7 @@ Menu ==
   \cup {[op |-> "setom", md |-> m1] : m1 \in {"default", "csv", "tsv"}}
   \cup {[op |-> "getf", k |-> k1] : k1 \in Idx \ {MaxField + 1}}
   \cup {[op |-> "getnf"]}
-  \cup {[op |-> "incr", k |-> k1] : k1 \in {1, 2}}
+  \cup {[op |-> "incr", k |-> k1] : k1 \in {1, 2, 0 - 1, 0 - 4}}
 
 VARIABLES rec, lz, steps, lastA, lastL
 vars == <<rec, lz, steps, lastA, lastL>>
